@@ -96,6 +96,8 @@ func (q *TellHub[A]) CloseWithError(err error) {
 }
 
 type serveReq[A p2p.Addr] struct {
+	// ctx is the asker's context: the handler's context ends when it ends
+	ctx  context.Context
 	msg  p2p.Message[A]
 	resp []byte
 	n    int
@@ -127,7 +129,13 @@ func (q *AskHub[A]) ServeAsk(ctx context.Context, fn func(context.Context, []byt
 	case <-q.closed:
 		return q.err
 	case req := <-q.reqs:
-		req.n = fn(ctx, req.resp, req.msg)
+		// Deliver waits for the handler once it is committed, so the handler must learn
+		// when the asker gives up: its context ends with the server's or the asker's, whichever is first.
+		hctx, cf := context.WithCancel(ctx)
+		stop := context.AfterFunc(req.ctx, cf)
+		req.n = fn(hctx, req.resp, req.msg)
+		stop()
+		cf()
 		close(req.done)
 		return nil
 	}
@@ -135,6 +143,7 @@ func (q *AskHub[A]) ServeAsk(ctx context.Context, fn func(context.Context, []byt
 
 func (q *AskHub[A]) Deliver(ctx context.Context, respData []byte, msg p2p.Message[A]) (int, error) {
 	req := &serveReq[A]{
+		ctx:  ctx,
 		msg:  msg,
 		resp: respData,
 		done: make(chan struct{}),
